@@ -1,9 +1,9 @@
 SPECIFICATION Spec
 CONSTANTS
- NK = 3
+ NK = 4
  MaxLayer = 2
  MaxH = 2
  Restore = TRUE
- AsIs = TRUE
-INVARIANTS SeekOK
+ AsIs = FALSE
+INVARIANTS NoFailure Agrees RetrySafe
 CHECK_DEADLOCK FALSE
